@@ -58,6 +58,7 @@ theorem HistOQ.setRecording {w : World} (kind idx : Nat) (on : Bool) (h : HistOQ
 
 theorem HistOQ.preserved : Preserved (fun w => TimeOk w.ev ∧ HistOQ w) := by
   refine Preserved.withTime (fun hs h => HistOQ.of_eq hs.2.2.2.1 hs.2.2.2.2.2.1 h) ?_ ?_ ?_ ?_
+    (fun w p f h => HistOQ.of_eq (by simp) (by simp) h)
   · intro w ev' n hle h
     exact ArrAll.mono h (fun x ok => ok.mono _ hle)
   · intro w p c h
@@ -195,6 +196,7 @@ theorem HistPQ.setRecording {w : World} (kind idx : Nat) (on : Bool) (h : HistPQ
 
 theorem HistPQ.preserved : Preserved (fun w => TimeOk w.ev ∧ HistPQ w) := by
   refine Preserved.withTime (fun hs h => HistPQ.of_eq hs.2.2.2.2.1 hs.2.2.2.2.2.1 h) ?_ ?_ ?_ ?_
+    (fun w p f h => HistPQ.of_eq (by simp) (by simp) h)
   · intro w ev' n hle h
     exact ArrAll.mono h (fun x ok => ok.mono _ hle)
   · intro w p c h
